@@ -757,8 +757,8 @@ def domain_product(thorough=False):
                         pool = DOM_MIXED if pattern == "mixed" else DOM_ASCII
                     labs.append(pool[(v + i + n) % len(pool)])
                 host = ".".join(labs)
-                for dot in ("", ".", "..") if thorough else ("", "."):
-                    for port in ("", ":80", ":8443"):
+                for dot in ("", ".", ".."):
+                    for port in ("", ":80", ":8443") if thorough or dot != ".." else ("",):
                         for flow in DOM_FLOWS:
                             n += 1
                             a = attrs(dom_set=True, domain=cps(dot + host + port), path_set=True, path=cps("/"), idna=idna_log(host))
